@@ -891,6 +891,7 @@ type c16Sess struct {
 	stopRPC  int  // … during this request
 	halts    map[int]*c16Halt // per request from the stop on: what still got out
 	unquiet  bool // a quiescent cut could not be awaited within the limit
+	quiesced bool // the session was ended by a cut made after the follower had stored every sent byte
 }
 
 func (ss *c16Sess) hook(point int) {
@@ -908,11 +909,14 @@ func (ss *c16Sess) quiesce() {
 	on, want := ss.round.Quiet && ss.aofOn && ss.aofBytes > 0, ss.aofStart+ss.aofBytes
 	ss.mu.Unlock()
 	if on {
-		if !c16Wait(func() bool { _, r := ss.fch.GetOffsetRange(ss.fch.RunId()); return r >= want }, c16Patience) {
-			ss.mu.Lock()
+		ok := c16Wait(func() bool { _, r := ss.fch.GetOffsetRange(ss.fch.RunId()); return r >= want }, c16Patience)
+		ss.mu.Lock()
+		if ok {
+			ss.quiesced = true
+		} else {
 			ss.unquiet = true
-			ss.mu.Unlock()
 		}
+		ss.mu.Unlock()
 	}
 }
 
@@ -1531,7 +1535,7 @@ func (x *c16Ctx) runCase(t *testing.T, srv *c16Server, c c16Case, src string) (u
 				s.Count("leader_stopped_fault")
 			}
 		}
-		unquiet := ss.unquiet
+		unquiet, quiesced := ss.unquiet, ss.quiesced && !ss.stopped
 		ss.mu.Unlock()
 		op := fmt.Sprintf("sess %s %s %s %s %s %d %d %d", c.Bk, rm.lsString(), rm.viewsString(), before.String(), ch, res.cutModel, res.lost, c16Fuel)
 		var out []string
@@ -1567,7 +1571,7 @@ func (x *c16Ctx) runCase(t *testing.T, srv *c16Server, c c16Case, src string) (u
 		}
 		if unquiet {
 			s.Count("quiescent_cut_not_awaited") // counted as an abrupt cut
-		} else if r.Quiet && res.lost != 0 {
+		} else if quiesced && res.lost != 0 {
 			// the cut was made only after the follower's channel reported every sent byte as stored
 			s.Violate("lost-bytes-when-quiescent", fmt.Sprintf("%d bytes the follower had already stored are gone after the cut", res.lost), replay)
 		}
